@@ -382,14 +382,14 @@ func (g *dgen) enumDisplay() *sx.Node {
 	return d
 }
 
-func dEnumIntD(vals []int64, disps []*sx.Node, u *unitsD) *sx.Node {
+func c09EnumIntD(vals []int64, disps []*sx.Node, u *unitsD) *sx.Node {
 	l := sx.L()
 	for i, v := range vals {
 		l.Append(sx.L(sx.I(v), disps[i]))
 	}
 	return sx.L(sx.A("enum_int"), l, dOptU(u))
 }
-func dEnumStrD(named *string, vals []string, disps []*sx.Node) *sx.Node {
+func c09EnumStrD(named *string, vals []string, disps []*sx.Node) *sx.Node {
 	l := sx.L()
 	for i, v := range vals {
 		l.Append(sx.L(sx.S(v), disps[i]))
@@ -467,7 +467,7 @@ func (g *dgen) scalar() *sx.Node {
 		if r.Chance(20) {
 			u = g.units()
 		}
-		return dEnumIntD(vals, ds, u)
+		return c09EnumIntD(vals, ds, u)
 	case 5:
 		all := []string{"x", "y", "zed", "true", "12", "a b"}
 		n := 1 + r.Intn(4)
@@ -479,9 +479,9 @@ func (g *dgen) scalar() *sx.Node {
 			ds = append(ds, g.enumDisplay())
 		}
 		if g.quirk == "typed-enum" {
-			return dEnumStrD(sp("MyStr"), all[:n], ds)
+			return c09EnumStrD(sp("MyStr"), all[:n], ds)
 		}
-		return dEnumStrD(nil, all[:n], ds)
+		return c09EnumStrD(nil, all[:n], ds)
 	case 6:
 		return dPattern()
 	case 7:
